@@ -586,3 +586,66 @@ def r_sib_r_c14_11(ctx):
 def r_sib_r_c14_12(ctx):
     from .c08 import r7 as bounded_wait
     bounded_wait(ctx)
+
+
+@rule("R-C14-13", min_instances=1, title="close() from a second thread can always get through: it needs no lock that the loop thread holds while it is blocked in a transport read (otherwise a peer that falls silent inside a frame makes close() -- and run_forever -- wait forever)")
+def r13(ctx):
+    """Lock-set analysis over two explorations of the same object layout: (a) the locks held at the moment the receive path asks the
+    transport for bytes, (b) the locks WebSocket.close() acquires.  Locks are identified by the field of the object that holds them."""
+    from ..models import explore_recv, frame_stubs, mk_websocket, recv_config
+    idx = ctx.index
+    W = "_core:WebSocket"
+    loc = idx.loc(idx.func(f"{W}.close").node)
+
+    def lock_names(run):
+        ws = next(c for c in run.heap.values() if getattr(c, "label", "") == "ws")
+        names = {}
+        for f, v in ws.fields.items():
+            if isinstance(v, Sym) and v.name.startswith("Lock#"):
+                names[v.key()] = f"WebSocket.{f}"
+            if isinstance(v, Ref):
+                c = run.heap.get(v.addr)
+                for f2, v2 in (getattr(c, "fields", {}) or {}).items():
+                    if isinstance(v2, Sym) and v2.name.startswith("Lock#"):
+                        names[v2.key()] = f"WebSocket.{f}.{f2}"
+        return names
+
+    # (a) held across a blocking read
+    Ia = Interp(idx, recv_config(extra_stubs={f"{W}.pong": lambda I, run, a, k, n: NONE, f"{W}.send_close": lambda I, run, a, k, n: NONE}))
+    held_at_read = set()
+    nreads = 0
+    for o in explore_recv(ctx, Ia, "recv_data_frame", "idle", control_frame=FALSE):
+        nm = lock_names(o.run)
+        stack = []
+        for e in o.effects:
+            if e.name == "with.enter" and e.args and e.args[0].key() in nm:
+                stack.append(nm[e.args[0].key()])
+            elif e.name == "with.exit" and e.args and e.args[0].key() in nm and nm[e.args[0].key()] in stack:
+                stack.remove(nm[e.args[0].key()])
+            elif e.name == "recv_strict":
+                nreads += 1
+                held_at_read.update(stack)
+    if nreads == 0:
+        raise AnalysisError("no transport read on the receive path")
+    # (b) needed by close()
+    def silent_peer(I, run, args, kwargs, node):
+        raise_exc(I, run, TIMEOUT_EXC, node)   # the first read of the peer's answer times out: enough to see which locks were taken on the way
+
+    st = frame_stubs({f"{W}.send": lambda I, run, a, k, n: C(6), "_logging:isEnabledForError": lambda *a: FALSE, "_abnf:frame_buffer.recv_strict": silent_peer})
+    Ib = Interp(idx, Config(stubs=st, loop_unroll=2))
+
+    def body(run):
+        ws = mk_websocket(Ib, run)
+        return Ib.call(run, Ib.getattr(run, ws, "close", None), [], {}, None)
+
+    needed = set()
+    for o in ctx.count_paths(Ib.explore(body)):
+        nm = lock_names(o.run)
+        needed.update(nm[e.args[0].key()] for e in o.effects if e.name == "with.enter" and e.args and e.args[0].key() in nm)
+    if not needed:
+        raise AnalysisError("close() acquires no lock in the exploration (its wait for the peer's close frame was not reached)")
+    clash = sorted(held_at_read & needed)
+    ctx.ob(f"{W}.close:needs-no-lock-held-across-a-blocking-read", not clash,
+           f"close() takes {sorted(needed)}; the receive path blocks holding {sorted(held_at_read)}: disjoint" if not clash else
+           f"close() takes {clash} (to read the peer's close frame), the lock the loop thread holds while it is blocked in a transport read with no deadline: when the peer falls silent "
+           f"in the middle of a frame, close() from another thread waits for that lock forever -- run_forever never returns and on_close never fires", loc)
